@@ -10,6 +10,7 @@ import WacProofs.Lemmas.GraphInvUnreg4
 import WacProofs.Lemmas.GraphNoPanic2
 import WacProofs.Lemmas.GraphQueries
 import WacProofs.Lemmas.GraphNoPanic4
+import WacModel.GraphProto
 /-
   C06 — the graph API stays consistent over every operation history.
 
@@ -34,6 +35,59 @@ def ctxW : Ctx where
 
 /-- package `p`: imports `a : kind 0`, instances have kind 1 -/
 def pkgW : PkgDef := ⟨['p'], none, [(['a'], 0)], 1⟩
+
+/-- the small universe is numbered children first -/
+theorem ctxW_wf : KindWF ctxW ∧ TyWF ctxW := by
+  constructor
+  · intro k exps hk p hp
+    simp only [ctxW] at hk
+    split at hk
+    · rename_i h1
+      cases hk
+      simp only [List.mem_cons, List.not_mem_nil, or_false] at hp
+      subst hp; subst h1; decide
+    · cases hk
+  · have key : ∀ (t u : Nat), u ∈ (if t = 0 then [0] else if t = 1 then [1, 0] else [2, 1, 0]) → u ≤ t := by
+      intro t u hu
+      split at hu
+      · simp only [List.mem_cons, List.not_mem_nil, or_false] at hu; omega
+      · split at hu
+        · simp only [List.mem_cons, List.not_mem_nil, or_false] at hu; omega
+        · simp only [List.mem_cons, List.not_mem_nil, or_false] at hu; omega
+    exact fun t u hu => key t u hu
+
+/-- the driver's check of the universe of a case is the assumption of the theorems below -/
+theorem universe_check_sound (t : GraphProto.Tables)
+    (h : (kindWFUpTo t.ctx t.kinds.size && tyWFUpTo t.ctx t.types.size) = true) :
+    KindWF t.ctx ∧ TyWF t.ctx := by
+  rw [Bool.and_eq_true] at h
+  obtain ⟨hk, ht⟩ := h
+  constructor
+  · intro k exps hke p hp
+    by_cases hlt : k < t.kinds.size
+    · unfold kindWFUpTo at hk
+      rw [List.all_eq_true] at hk
+      have := hk k (List.mem_range.mpr hlt)
+      rw [hke] at this
+      simp only [List.all_eq_true, decide_eq_true_eq] at this
+      exact this p hp
+    · have : t.ctx.kindExports k = none := by
+        simp only [GraphProto.Tables.ctx]
+        rw [Array.getElem?_eq_none (Nat.le_of_not_lt hlt)]
+        rfl
+      rw [this] at hke; cases hke
+  · intro ty u hu
+    by_cases hlt : ty < t.types.size
+    · unfold tyWFUpTo at ht
+      rw [List.all_eq_true] at ht
+      have := ht ty (List.mem_range.mpr hlt)
+      simp only [List.all_eq_true, decide_eq_true_eq] at this
+      exact this u hu
+    · have : t.ctx.tyVisits ty = [] := by
+        simp only [GraphProto.Tables.ctx]
+        rw [Array.getElem?_eq_none (Nat.le_of_not_lt hlt)]
+        rfl
+      rw [this] at hu; cases hu
 
 /-- the empty graph is consistent -/
 theorem inv_init (ctx : Ctx) : Inv ctx {} := by
@@ -152,12 +206,12 @@ theorem double_removal_repaired :
 
 /-- every call that does not panic keeps the graph consistent -/
 theorem inv_step (ctx : Ctx) (g g' : Graph) (op : Op) (out : Outcome)
-    (h : Inv ctx g) (hs : step ctx g op = (g', out)) (hp : out.isPanic = false) : Inv ctx g' := by
+    (h : Inv ctx g) (hw : TyWF ctx) (hs : step ctx g op = (g', out)) (hp : out.isPanic = false) : Inv ctx g' := by
   unfold step stepWith at hs
   cases op with
   | register d => exact inv_registerPackage h hs
   | unregister id => exact inv_unregisterPackage h hs hp
-  | defineType name ty => exact inv_defineType h hs
+  | defineType name ty => exact inv_defineType h hw hs
   | importItem name kind => exact inv_importItem h hs
   | instantiate id => exact inv_instantiate h hs
   | alias inst ename => exact inv_aliasInstanceExport h hs
@@ -170,14 +224,15 @@ theorem inv_step (ctx : Ctx) (g g' : Graph) (op : Op) (out : Outcome)
 
 /-- … also a panicking call: in the model a panic leaves the state it was applied to -/
 theorem inv_step_any (ctx : Ctx) (g g' : Graph) (op : Op) (out : Outcome)
-    (h : Inv ctx g) (hs : step ctx g op = (g', out)) (hpanic : out.isPanic = true → g' = g) : Inv ctx g' := by
+    (h : Inv ctx g) (hw : TyWF ctx) (hs : step ctx g op = (g', out)) (hpanic : out.isPanic = true → g' = g) :
+    Inv ctx g' := by
   cases hp : out.isPanic with
-  | false => exact inv_step ctx g g' op out h hs hp
+  | false => exact inv_step ctx g g' op out h hw hs hp
   | true => rw [hpanic hp]; exact h
 
 /-- the state reached by any history from any consistent state is consistent, as long as the
     history did not end in a panic -/
-theorem inv_run (ctx : Ctx) : ∀ (ops : List Op) (g : Graph), Inv ctx g →
+theorem inv_run (ctx : Ctx) (hw : TyWF ctx) : ∀ (ops : List Op) (g : Graph), Inv ctx g →
     (∀ o ∈ (run ctx g ops).2, o.isPanic = false) → Inv ctx (run ctx g ops).1
   | [], _, h, _ => h
   | op :: ops, g, h, hnp => by
@@ -191,18 +246,18 @@ theorem inv_run (ctx : Ctx) : ∀ (ops : List Op) (g : Graph), Inv ctx g →
         exact absurd (hnp (.panic s) (by simp)) (by simp [Outcome.isPanic])
       | ok v =>
         simp only at hnp ⊢
-        have h1 : Inv ctx g1 := inv_step ctx g g1 op (.ok v) h hst rfl
-        exact inv_run ctx ops g1 h1 (fun o ho => hnp o (List.mem_cons_of_mem _ ho))
+        have h1 : Inv ctx g1 := inv_step ctx g g1 op (.ok v) h hw hst rfl
+        exact inv_run ctx hw ops g1 h1 (fun o ho => hnp o (List.mem_cons_of_mem _ ho))
       | err e =>
         simp only at hnp ⊢
-        have h1 : Inv ctx g1 := inv_step ctx g g1 op (.err e) h hst rfl
-        exact inv_run ctx ops g1 h1 (fun o ho => hnp o (List.mem_cons_of_mem _ ho))
+        have h1 : Inv ctx g1 := inv_step ctx g g1 op (.err e) h hw hst rfl
+        exact inv_run ctx hw ops g1 h1 (fun o ho => hnp o (List.mem_cons_of_mem _ ho))
 
 /-- C06, first half: after ANY sequence of graph operations from the empty graph that did not
     panic, the graph is consistent (all the bookkeeping of `Inv`) -/
-theorem inv_reachable (ctx : Ctx) (ops : List Op) (hnp : ∀ o ∈ (run ctx {} ops).2, o.isPanic = false) :
-    Inv ctx (run ctx {} ops).1 :=
-  inv_run ctx ops {} (inv_init ctx) hnp
+theorem inv_reachable (ctx : Ctx) (hw : TyWF ctx) (ops : List Op)
+    (hnp : ∀ o ∈ (run ctx {} ops).2, o.isPanic = false) : Inv ctx (run ctx {} ops).1 :=
+  inv_run ctx hw ops {} (inv_init ctx) hnp
 
 -- non-vacuity: a history that uses every operation, with removal and re-creation
 example : (∀ o ∈ (run ctxW {} [.register pkgW, .instantiate ⟨0, 0⟩, .instantiate ⟨0, 0⟩, .alias 0 ['a'],
@@ -254,13 +309,63 @@ example : LiveIds (run ctxW {} [.register pkgW, .instantiate ⟨0, 0⟩, .instan
     (`Node.key`) strictly decreases, given that export kinds are smaller than the instance kind
     (`KindWF`, kinds are finite trees) and that dependency edges go from a type to a type built
     from it (`DepOrder`) -/
-theorem no_panic_live (ctx : Ctx) (g : Graph) (op : Op) (h : Inv ctx g) (hw : KindWF ctx) (hd : DepOrder g)
+theorem no_panic_live (ctx : Ctx) (g : Graph) (op : Op) (h : Inv ctx g) (hw : KindWF ctx)
     (hl : LiveIds g op = true) : (step ctx g op).2.isPanic = false := by
   cases op with
   | removeNode n =>
     unfold step stepWith
-    exact noPanic_removeNode h hw hd (by simpa [LiveIds] using hl)
+    exact noPanic_removeNode h hw (by simpa [LiveIds] using hl)
   | _ => exact no_panic_live_partial ctx g _ h hl rfl
+
+/-- every call of the history mentions live identifiers only (of the state it is applied to) -/
+def AllLive (ctx : Ctx) : Graph → List Op → Prop
+  | _, [] => True
+  | g, op :: ops => LiveIds g op = true ∧ AllLive ctx (step ctx g op).1 ops
+
+/-- C06, second half, over histories: from a consistent state — in particular from the empty
+    graph — a history whose calls mention live identifiers only never panics, and ends in a
+    consistent state -/
+theorem never_panics (ctx : Ctx) (hk : KindWF ctx) (ht : TyWF ctx) : ∀ (ops : List Op) (g : Graph), Inv ctx g →
+    AllLive ctx g ops → (∀ o ∈ (run ctx g ops).2, o.isPanic = false) ∧ Inv ctx (run ctx g ops).1
+  | [], _, h, _ => And.intro (fun _ ho => nomatch ho) h
+  | op :: ops, g, h, hl => by
+    obtain ⟨hl1, hl2⟩ := hl
+    have hnp := no_panic_live ctx g op h hk hl1
+    unfold run runWith
+    unfold step at hnp hl2
+    cases hst : stepWith .fixed ctx g op with
+    | mk g1 out =>
+      rw [hst] at hnp hl2
+      simp only at hnp hl2
+      have h1 : Inv ctx g1 := inv_step ctx g g1 op out h ht hst hnp
+      obtain ⟨r1, r2⟩ := never_panics ctx hk ht ops g1 h1 hl2
+      cases out with
+      | panic s => cases hnp
+      | ok v =>
+        simp only
+        refine ⟨?_, r2⟩
+        intro o ho
+        rcases List.mem_cons.mp ho with rfl | ho
+        · rfl
+        · exact r1 o ho
+      | err e =>
+        simp only
+        refine ⟨?_, r2⟩
+        intro o ho
+        rcases List.mem_cons.mp ho with rfl | ho
+        · rfl
+        · exact r1 o ho
+
+theorem never_panics_from_empty (ctx : Ctx) (hk : KindWF ctx) (ht : TyWF ctx) (ops : List Op)
+    (hl : AllLive ctx {} ops) : (∀ o ∈ (run ctx {} ops).2, o.isPanic = false) ∧ Inv ctx (run ctx {} ops).1 :=
+  never_panics ctx hk ht ops {} (inv_init ctx) hl
+
+-- non-vacuity: a history with live identifiers throughout, including cascading removals
+example : AllLive ctxW {} [.register pkgW, .instantiate ⟨0, 0⟩, .instantiate ⟨0, 0⟩, .alias 0 ['a'],
+    .setArg 1 ['a'] 2, .defineType ['t'] 0, .defineType ['u'] 2, .defineType ['v'] 1, .removeNode 3, .removeNode 0,
+    .unregister ⟨0, 0⟩] := by
+  simp only [AllLive]
+  decide
 
 /-! ### every query reflects exactly the surviving items -/
 
@@ -292,7 +397,9 @@ theorem remove_no_trace (ctx : Ctx) (g g' : Graph) (n : Nat) (h : Inv ctx g)
     (∀ e ∈ g'.edges, e ∈ g.edges ∧ e.src ≠ n ∧ e.dst ≠ n) ∧
     (∀ e ∈ g'.imports, e.2 ≠ n) ∧ (∀ e ∈ g'.exports, e.2 ≠ n) ∧ (∀ e ∈ g'.defined, e.2 ≠ n) ∧
     (∀ m x, g'.node? m = some x → ∀ i ∈ x.sat, ∃ e ∈ g'.edges, e.dst = m ∧ e.kind = .arg i ∧ e.src ≠ n) := by
-  have hinv := inv_step ctx g g' (.removeNode n) (.ok .unit) h hs rfl
+  have hinv : Inv ctx g' := by
+    unfold step stepWith at hs
+    exact inv_removeNode h hs
   obtain ⟨hgone, hsh⟩ := removeNode_gone h (by simpa [step, stepWith] using hs)
   -- in a consistent graph nothing refers to a vacant slot
   have hedge : ∀ e ∈ g'.edges, e.src ≠ n ∧ e.dst ≠ n := by
@@ -333,7 +440,9 @@ theorem unregister_no_trace (ctx : Ctx) (g g' : Graph) (id : PkgId) (h : Inv ctx
     (hs : step ctx g (.unregister id) = (g', .ok .unit)) :
     Inv ctx g' ∧ (∀ m x, g'.node? m = some x → x.pkg ≠ some id) ∧ g'.pkgLive id = false ∧
     ∃ d, g.pkgOf id = .ok d ∧ getPackageByName g' d.key = none := by
-  have hinv := inv_step ctx g g' (.unregister id) (.ok .unit) h hs rfl
+  have hinv : Inv ctx g' := by
+    unfold step stepWith at hs
+    exact inv_unregisterPackage h hs rfl
   have hs' : unregisterPackage .fixed g id = (g', .ok .unit) := by simpa [step, stepWith] using hs
   obtain ⟨slot, d, g1, hslot, hgen, hd, hc, _, rfl⟩ := unregister_full hs'
   obtain ⟨_, hused, _, _, _⟩ := inv_unregMid h hc
